@@ -659,13 +659,16 @@ class _WakeGate:
            "checkpoint; when the call wakes the reactor, the reactor thread runs at once (one pass of the real loop) and may "
            "find the network idle timer expired and/or the provider thread dead (symbolic bools)",
     stubs=["assoc.dul is a ScriptDUL; _reactor_checkpoint is a wake gate that runs the real _run_reactor loop body at the "
-           "moment set() is called; time.sleep no-op"],
+           "moment set() is called - or only after the user call has returned (late_pass); time.sleep no-op",
+           "optionally the peer's A-RELEASE request / A-ABORT indication is already queued for the association"],
     outside="pre-emption at other points of the user call (co-simulation above)",
 )
-def user_call_wakes_reactor(is_requestor: bool, op: int, idle_expired: bool, provider_dead: bool, seq: List[int]) -> bool:
+def user_call_wakes_reactor(is_requestor: bool, op: int, idle_expired: bool, provider_dead: bool, seq: List[int],
+                            queued: int, late_pass: bool) -> bool:
     """
     pre: 0 <= op <= 2
     pre: len(seq) <= 1 and all(0 <= x <= 4 for x in seq)
+    pre: 0 <= queued <= 2
     post: _ == True
     """
     req = True if is_requestor else False
@@ -677,6 +680,12 @@ def user_call_wakes_reactor(is_requestor: bool, op: int, idle_expired: bool, pro
     dul.idle_expired = True if idle_expired else False
     dul.alive = False if provider_dead else True
     dul.script = list(seq)
+    if queued == 1:
+        dul.to_user_queue.put(_prim(REL_RQ))      # the peer's release request is already waiting to be consumed
+    elif queued == 2:
+        dul.to_user_queue.put(_prim(ABORT))
+    if late_pass:
+        gate.ran = 1                              # the woken reactor only gets to run after the user call returned
     saved = assoc_mod.time
     assoc_mod.time = _NoSleep()
     try:
@@ -686,7 +695,12 @@ def user_call_wakes_reactor(is_requestor: bool, op: int, idle_expired: bool, pro
             assoc.abort(block=False)
         else:
             assoc.release()
+        if late_pass and not assoc._kill:
+            gate.ran, gate.waits = 0, 0
+            gate.set()
         sent = _kinds(dul.sent)
+        if ABORT in sent and any(k == REL_RP or k == REL_RQ for k in sent[sent.index(ABORT) + 1:]):
+            return False                          # nothing may follow the A-ABORT the local side handed to the provider
         n_abort = len([k for k in sent if k == ABORT])
         # one terminal outcome, announced once, and at most one A-ABORT handed to the provider
         ok = n_abort <= 1 and len(log) <= 1 and not assoc.is_established
